@@ -796,3 +796,351 @@ Proof.
   intros HU h o Hc s. apply (oci_failed_noop U).
   destruct (run_refines_oci U HU h oci_init Hc (oci_inv_init U)) as (_ & _ & E). exact E.
 Qed.
+
+(* ================================================================== *)
+(* The clauses of the property, as consequences for every history.     *)
+(* ================================================================== *)
+
+(* ---------- the Delete loop is independent of the map iteration order ---------- *)
+Lemma untag_fold_get_none k snap t r :
+  get ref_eqb r t = None -> get ref_eqb r (untag_fold k snap t) = None.
+Proof.
+  unfold untag_fold. revert t. induction snap as [|[r0 d0] snap IH]; intros t H; cbn [fold_left fst snd]; auto.
+  destruct (gkey_eqb (gk d0) k); auto. apply IH.
+  destruct (eqb_dec ref_eqb ref_eqb_spec r r0) as [->|Hne].
+  - apply (get_del_eq ref_eqb).
+  - now rewrite (get_del_neq ref_eqb ref_eqb_spec).
+Qed.
+
+Lemma untag_fold_get_keep k snap t r :
+  (forall d', In (r, d') snap -> gkey_eqb (gk d') k = false) ->
+  get ref_eqb r (untag_fold k snap t) = get ref_eqb r t.
+Proof.
+  unfold untag_fold. revert t. induction snap as [|[r0 d0] snap IH]; intros t H; cbn [fold_left fst snd]; auto.
+  assert (H' : forall d', In (r, d') snap -> gkey_eqb (gk d') k = false) by (intros; apply H; now right).
+  destruct (gkey_eqb (gk d0) k) eqn:E; [|now apply IH].
+  rewrite IH by exact H'. apply (get_del_neq ref_eqb ref_eqb_spec).
+  intro; subst r0. rewrite (H d0) in E by now left. discriminate.
+Qed.
+
+Lemma untag_fold_get_drop k snap t r d' :
+  In (r, d') snap -> gkey_eqb (gk d') k = true -> get ref_eqb r (untag_fold k snap t) = None.
+Proof.
+  unfold untag_fold. revert t. induction snap as [|[r0 d0] snap IH]; intros t Hin Hm; [destruct Hin|].
+  cbn [fold_left fst snd]. destruct Hin as [Heq|Hin].
+  - injection Heq as -> ->. rewrite Hm. apply untag_fold_get_none. apply (get_del_eq ref_eqb).
+  - now apply IH.
+Qed.
+
+Lemma get_filter_nodup {V} (P : ref * V -> bool) (t : list (ref * V)) r :
+  NoDup (map fst t) ->
+  get ref_eqb r (filter P t) =
+  match get ref_eqb r t with Some d => if P (r, d) then Some d else None | None => None end.
+Proof.
+  induction t as [|[r0 d0] t IH]; intro Hnd; simpl; auto.
+  inversion Hnd as [|? ? Hni Hnd']; subst.
+  destruct (ref_eqb r r0) eqn:E.
+  - apply ref_eqb_spec in E. subst r0. destruct (P (r, d0)) eqn:EP; simpl.
+    + now rewrite (eqb_refl ref_eqb ref_eqb_spec).
+    + rewrite IH by exact Hnd'. destruct (get ref_eqb r t) eqn:G; auto.
+      exfalso. apply Hni. apply in_map_iff. exists (r, v). split; auto.
+      now apply (get_In ref_eqb ref_eqb_spec).
+  - destruct (P (r0, d0)); simpl; [rewrite E|]; now apply IH.
+Qed.
+
+(* whatever order Go's map iteration delivers the snapshot in, Store.delete leaves
+   exactly the references whose descriptor is not content.Equal to the target *)
+Lemma untag_fold_order_free k snap t r :
+  NoDup (map fst t) -> (forall e, In e snap <-> In e t) ->
+  get ref_eqb r (untag_fold k snap t) = get ref_eqb r (spec_untag_equal k t).
+Proof.
+  intros Hnd Hperm. unfold spec_untag_equal. rewrite get_filter_nodup by exact Hnd. simpl.
+  destruct (get ref_eqb r t) as [d|] eqn:G.
+  - destruct (gkey_eqb (gk d) k) eqn:E; simpl.
+    + eapply untag_fold_get_drop; [|exact E]. apply Hperm. now apply (get_In ref_eqb ref_eqb_spec).
+    + rewrite untag_fold_get_keep; auto. intros d' Hin. apply Hperm in Hin.
+      rewrite (In_get ref_eqb ref_eqb_spec _ _ _ Hnd Hin) in G. congruence.
+  - now apply untag_fold_get_none.
+Qed.
+
+(* ---------- memory store ---------- *)
+Lemma mem_content_immutable s o k c :
+  get gkey_eqb k (m_cas s) = Some c -> get gkey_eqb k (m_cas (fst (mem_step s o))) = Some c.
+Proof.
+  intro H. destruct o; simpl; auto.
+  - destruct (get gkey_eqb (gk d) (m_cas s)) eqn:E; auto. destruct (verify d c0); auto. simpl.
+    rewrite (get_put_neq gkey_eqb gkey_eqb_spec); auto. intro; subst. congruence.
+  - destruct (get gkey_eqb (gk d) (m_cas s)); auto.
+  - destruct (is_some _); auto.
+  - destruct (get ref_eqb r (r_index (m_res s))); auto.
+Qed.
+
+Lemma mem_content_immutable_run h : forall s k c,
+  get gkey_eqb k (m_cas s) = Some c -> get gkey_eqb k (m_cas (fst (run mem_step s h))) = Some c.
+Proof.
+  induction h as [|o h IH]; intros s k c H; [exact H|].
+  rewrite run_cons. cbn [fst]. apply IH. now apply mem_content_immutable.
+Qed.
+
+(* Fetch returns exactly the pushed bytes, for ever; pushing again is refused and changes nothing *)
+Lemma mem_fetch_returns_pushed s d c h2 d' :
+  snd (mem_step s (Push d c)) = OOk -> gk d' = gk d ->
+  let s2 := fst (run mem_step (fst (mem_step s (Push d c))) h2) in
+  snd (mem_step s2 (Fetch d')) = OBytes (b_hash c) (b_len c) /\
+  b_hash c = d_dig d /\ b_len c = d_size d /\
+  forall c', mem_step s2 (Push d' c') = (s2, OErr EAlreadyExists).
+Proof.
+  intros Hok Hk s2.
+  assert (Hget : get gkey_eqb (gk d) (m_cas (fst (mem_step s (Push d c)))) = Some c /\ verify d c = true).
+  { revert Hok. simpl. destruct (get gkey_eqb (gk d) (m_cas s)); [discriminate|].
+    destruct (verify d c) eqn:V; [|discriminate]. intros _. simpl.
+    now rewrite (get_put_eq gkey_eqb gkey_eqb_spec). }
+  destruct Hget as [Hget Hv].
+  pose proof (mem_content_immutable_run h2 _ _ _ Hget) as H2. fold s2 in H2.
+  unfold verify in Hv. apply andb_true_iff in Hv as [V1 V2]. apply N.eqb_eq in V1, V2.
+  simpl. rewrite Hk, H2. repeat split; auto.
+Qed.
+
+Definition tags_ref (r : ref) (o : op) : bool :=
+  match o with Tag _ r' => ref_eqb r' r | _ => false end.
+
+Lemma mem_tag_frame s o r :
+  tags_ref r o = false ->
+  get ref_eqb r (r_index (m_res (fst (mem_step s o)))) = get ref_eqb r (r_index (m_res s)).
+Proof.
+  intro H. destruct o; simpl; auto.
+  - destruct (get gkey_eqb (gk d) (m_cas s)); auto. destruct (verify d c); auto.
+  - destruct (get gkey_eqb (gk d) (m_cas s)); auto.
+  - destruct (is_some _); auto. cbn [fst m_res tags_ref] in *. rewrite r_index_tag.
+    apply (get_put_neq ref_eqb ref_eqb_spec). intro; subst.
+    rewrite (eqb_refl ref_eqb ref_eqb_spec) in H. discriminate.
+  - destruct (get ref_eqb r0 (r_index (m_res s))); auto.
+Qed.
+
+(* Resolve returns the descriptor most recently tagged *)
+Lemma mem_resolve_latest s d r h2 :
+  snd (mem_step s (Tag d r)) = OOk -> forallb (fun o => negb (tags_ref r o)) h2 = true ->
+  snd (mem_step (fst (run mem_step (fst (mem_step s (Tag d r))) h2)) (Resolve r)) = ODesc d.
+Proof.
+  intros Hok Hfr.
+  assert (Hget : get ref_eqb r (r_index (m_res (fst (mem_step s (Tag d r))))) = Some d).
+  { revert Hok. simpl. destruct (is_some _); [|discriminate]. intros _. cbn [fst m_res].
+    rewrite r_index_tag. apply (get_put_eq ref_eqb ref_eqb_spec). }
+  revert Hget. generalize (fst (mem_step s (Tag d r))). clear Hok s.
+  induction h2 as [|o h2 IH]; intros s Hget.
+  - simpl. now rewrite Hget.
+  - simpl in Hfr. apply andb_true_iff in Hfr as [H1 H2]. rewrite run_cons. cbn [fst].
+    apply IH; auto. rewrite mem_tag_frame; auto. now destruct (tags_ref r o).
+Qed.
+
+(* content never pushed successfully is absent: fetching or tagging it reports not-found *)
+Lemma mem_never_pushed_absent h k :
+  (forall d c, In (Push d c) h -> gk d <> k) ->
+  let s := fst (run mem_step mem_init h) in
+  get gkey_eqb k (m_cas s) = None /\
+  forall d r, gk d = k -> snd (mem_step s (Fetch d)) = OErr ENotFound /\
+                          snd (mem_step s (Tag d r)) = OErr ENotFound /\
+                          snd (mem_step s (Exists d)) = OBool false.
+Proof.
+  intros Hno s.
+  assert (Habs : get gkey_eqb k (m_cas s) = None).
+  { unfold s. clear s. assert (G : get gkey_eqb k (m_cas mem_init) = None) by reflexivity.
+    revert G Hno. generalize mem_init. induction h as [|o h IH]; intros s0 G Hno; [exact G|].
+    rewrite run_cons. cbn [fst]. apply IH; [|intros; apply (Hno d c); now right].
+    destruct o; simpl; auto.
+    - destruct (get gkey_eqb (gk d) (m_cas s0)); auto. destruct (verify d c); auto. simpl.
+      rewrite (get_put_neq gkey_eqb gkey_eqb_spec); auto. intro; subst. apply (Hno d c); [now left | reflexivity].
+    - destruct (get gkey_eqb (gk d) (m_cas s0)); auto.
+    - destruct (is_some _); auto.
+    - destruct (get ref_eqb r (r_index (m_res s0))); auto. }
+  split; auto. intros d r <-. simpl. rewrite Habs. simpl. auto.
+Qed.
+
+(* ---------- OCI store ---------- *)
+Definition deletes_dig (g : N) (o : op) : bool :=
+  match o with Delete d => d_dig d =? g | _ => false end.
+
+Lemma oci_content_frame s o g c :
+  deletes_dig g o = false ->
+  get N.eqb g (o_blobs s) = Some c -> get N.eqb g (o_blobs (fst (oci_step s o))) = Some c.
+Proof.
+  intros Hd H. destruct o; simpl; auto.
+  - destruct (get N.eqb (d_dig d) (o_blobs s)) eqn:E; auto. destruct (verify d c0); auto. simpl.
+    rewrite (get_put_neq N.eqb Neqb_spec); auto. intro; subst. congruence.
+  - destruct (get N.eqb (d_dig d) (o_blobs s)); auto.
+  - destruct r; auto; destruct (is_some _); auto.
+  - destruct r; auto; destruct (get ref_eqb _ (r_index (o_res s))); auto.
+    destruct (get N.eqb g0 (o_blobs s)); auto.
+  - destruct r; auto; (destruct (get ref_eqb _ (r_index (o_res s))) as [d0|]; auto;
+                       destruct (ref_eqb _ (RDig (d_dig d0))); auto).
+  - simpl in Hd. destruct (get N.eqb (d_dig d) (o_blobs s)); simpl; auto.
+    rewrite (get_del_neq N.eqb Neqb_spec); auto. intro; subst. rewrite N.eqb_refl in Hd. discriminate.
+Qed.
+
+(* Fetch returns exactly the pushed bytes until that content is deleted; pushing it
+   again is refused and changes nothing *)
+Lemma oci_fetch_returns_pushed s d c h2 d' :
+  snd (oci_step s (Push d c)) = OOk -> d_dig d' = d_dig d ->
+  forallb (fun o => negb (deletes_dig (d_dig d) o)) h2 = true ->
+  let s2 := fst (run oci_step (fst (oci_step s (Push d c))) h2) in
+  snd (oci_step s2 (Fetch d')) = OBytes (b_hash c) (b_len c) /\
+  b_hash c = d_dig d /\ b_len c = d_size d /\
+  forall c', oci_step s2 (Push d' c') = (s2, OErr EAlreadyExists).
+Proof.
+  intros Hok Hk Hfr s2.
+  assert (Hget : get N.eqb (d_dig d) (o_blobs (fst (oci_step s (Push d c)))) = Some c /\ verify d c = true).
+  { revert Hok. simpl. destruct (get N.eqb (d_dig d) (o_blobs s)); [discriminate|].
+    destruct (verify d c) eqn:V; [|discriminate]. intros _. simpl.
+    now rewrite (get_put_eq N.eqb Neqb_spec). }
+  destruct Hget as [Hget Hv].
+  assert (H2 : get N.eqb (d_dig d) (o_blobs s2) = Some c).
+  { unfold s2. clear s2 Hok. revert Hget. generalize (fst (oci_step s (Push d c))).
+    induction h2 as [|o h2 IH]; intros s0 Hget; [exact Hget|].
+    simpl in Hfr. apply andb_true_iff in Hfr as [F1 F2]. rewrite run_cons. cbn [fst].
+    apply IH; auto. apply oci_content_frame; auto. now destruct (deletes_dig (d_dig d) o). }
+  unfold verify in Hv. apply andb_true_iff in Hv as [V1 V2]. apply N.eqb_eq in V1, V2.
+  simpl. rewrite Hk, H2. repeat split; auto.
+Qed.
+
+(* the tag map never holds a reference twice *)
+Lemma untag_fold_nodup k snap t : NoDup (map fst t) -> NoDup (map fst (untag_fold k snap t)).
+Proof.
+  unfold untag_fold. revert t. induction snap as [|e snap IH]; intros t H; cbn [fold_left]; auto.
+  destruct (gkey_eqb (gk (snd e)) k); auto. apply IH. now apply NoDup_del.
+Qed.
+
+Lemma spec_oci_tag_nodup d r t : NoDup (map fst t) -> NoDup (map fst (spec_oci_tag d r t)).
+Proof.
+  intro H. unfold spec_oci_tag. apply (NoDup_put ref_eqb ref_eqb_spec).
+  destruct (ref_eqb r (RDig (d_dig d))); auto. now apply (NoDup_put ref_eqb ref_eqb_spec).
+Qed.
+
+Lemma oci_index_nodup s o :
+  NoDup (map fst (r_index (o_res s))) -> NoDup (map fst (r_index (o_res (fst (oci_step s o))))).
+Proof.
+  intro H. destruct o; simpl; auto.
+  - destruct (get N.eqb (d_dig d) (o_blobs s)); auto. destruct (verify d c); auto. cbn [fst o_res].
+    destruct (is_manifest (d_mt d)); auto. rewrite r_index_oci_tag. now apply spec_oci_tag_nodup.
+  - destruct (get N.eqb (d_dig d) (o_blobs s)); auto.
+  - assert (Hgen : forall r0, NoDup (map fst (r_index (oci_tag d r0 (o_res s)))))
+      by (intro; rewrite r_index_oci_tag; now apply spec_oci_tag_nodup).
+    destruct r as [m|g|]; auto; (destruct (is_some _); auto);
+      [exact (Hgen (RName m)) | exact (Hgen (RDig g))].
+  - destruct r; auto; destruct (get ref_eqb _ (r_index (o_res s))); auto.
+    destruct (get N.eqb g (o_blobs s)); auto.
+  - assert (Hgen : forall r0, NoDup (map fst (r_index (res_untag r0 (o_res s)))))
+      by (intro; rewrite r_index_untag; now apply NoDup_del).
+    destruct r as [m|g|]; auto;
+      (destruct (get ref_eqb _ (r_index (o_res s))) as [d0|]; auto;
+       destruct (ref_eqb _ (RDig (d_dig d0))); auto);
+      [exact (Hgen (RName m)) | exact (Hgen (RDig g))].
+  - destruct (get N.eqb (d_dig d) (o_blobs s)); cbn [fst o_res];
+      rewrite r_index_untag_equal; now apply untag_fold_nodup.
+Qed.
+
+(* operations that may change what the name n resolves to, when it points to key k *)
+Definition touches_name (n : N) (k : gkey) (o : op) : bool :=
+  match o with
+  | Tag _ (RName m) => m =? n
+  | Untag (RName m) => m =? n
+  | Delete d => gkey_eqb (gk d) k
+  | _ => false
+  end.
+
+Lemma get_spec_oci_tag_other d r t r' :
+  r' <> r -> r' <> RDig (d_dig d) -> get ref_eqb r' (spec_oci_tag d r t) = get ref_eqb r' t.
+Proof.
+  intros H1 H2. unfold spec_oci_tag. rewrite (get_put_neq ref_eqb ref_eqb_spec) by exact H1.
+  destruct (ref_eqb r (RDig (d_dig d))); auto. now rewrite (get_put_neq ref_eqb ref_eqb_spec).
+Qed.
+
+Lemma oci_name_frame s o n d :
+  NoDup (map fst (r_index (o_res s))) ->
+  get ref_eqb (RName n) (r_index (o_res s)) = Some d ->
+  touches_name n (gk d) o = false ->
+  get ref_eqb (RName n) (r_index (o_res (fst (oci_step s o)))) = Some d.
+Proof.
+  intros Hnd H Ht. destruct o; simpl; auto.
+  - destruct (get N.eqb (d_dig d0) (o_blobs s)); auto. destruct (verify d0 c); auto. cbn [fst o_res].
+    destruct (is_manifest (d_mt d0)); auto. rewrite r_index_oci_tag.
+    rewrite get_spec_oci_tag_other; auto; discriminate.
+  - destruct (get N.eqb (d_dig d0) (o_blobs s)); auto.
+  - assert (Hgen : forall r0, r0 <> RName n ->
+               get ref_eqb (RName n) (r_index (oci_tag d0 r0 (o_res s))) = Some d).
+    { intros r0 Hr0. rewrite r_index_oci_tag. rewrite get_spec_oci_tag_other; auto. discriminate. }
+    destruct r as [m|g|]; auto; (destruct (is_some _); auto).
+    + apply (Hgen (RName m)). intro E. injection E as ->. simpl in Ht. rewrite N.eqb_refl in Ht. discriminate.
+    + apply (Hgen (RDig g)). discriminate.
+  - destruct r as [m|g|]; auto.
+    + destruct (get ref_eqb (RName m) (r_index (o_res s))); auto.
+    + destruct (get ref_eqb (RDig g) (r_index (o_res s))); auto.
+      destruct (get N.eqb g (o_blobs s)); auto.
+  - assert (Hgen : forall r0, r0 <> RName n ->
+               get ref_eqb (RName n) (r_index (res_untag r0 (o_res s))) = Some d).
+    { intros r0 Hr0. rewrite r_index_untag. rewrite (get_del_neq ref_eqb ref_eqb_spec); auto. }
+    destruct r as [m|g|]; auto.
+    + destruct (get ref_eqb (RName m) (r_index (o_res s))) as [d1|]; auto.
+      destruct (ref_eqb _ (RDig (d_dig d1))); auto.
+      apply (Hgen (RName m)). intro E. injection E as ->. simpl in Ht. rewrite N.eqb_refl in Ht. discriminate.
+    + destruct (get ref_eqb (RDig g) (r_index (o_res s))) as [d1|]; auto.
+      destruct (ref_eqb _ (RDig (d_dig d1))); auto.
+      apply (Hgen (RDig g)). discriminate.
+  - simpl in Ht.
+    assert (Hk : get ref_eqb (RName n) (untag_fold (gk d0) (r_index (o_res s)) (r_index (o_res s))) = Some d).
+    { rewrite untag_fold_get_keep; auto. intros d' Hin.
+      rewrite (In_get ref_eqb ref_eqb_spec _ _ _ Hnd Hin) in H. injection H as ->.
+      destruct (gkey_eqb (gk d) (gk d0)) eqn:E; auto. apply gkey_eqb_spec in E. rewrite E in Ht.
+      rewrite (eqb_refl gkey_eqb gkey_eqb_spec) in Ht. discriminate. }
+    destruct (get N.eqb (d_dig d0) (o_blobs s)); cbn [fst o_res]; now rewrite r_index_untag_equal.
+Qed.
+
+Lemma oci_run_index_nodup h : forall s,
+  NoDup (map fst (r_index (o_res s))) -> NoDup (map fst (r_index (o_res (fst (run oci_step s h))))).
+Proof.
+  induction h as [|o h IH]; intros s H; [exact H|]. rewrite run_cons. cbn [fst].
+  apply IH. now apply oci_index_nodup.
+Qed.
+
+(* Resolve of a name returns the descriptor most recently tagged, as long as the name
+   is not re-tagged or untagged and the tagged content is not deleted *)
+Lemma oci_resolve_latest h1 d n h2 :
+  let s := fst (run oci_step oci_init h1) in
+  snd (oci_step s (Tag d (RName n))) = OOk ->
+  forallb (fun o => negb (touches_name n (gk d) o)) h2 = true ->
+  snd (oci_step (fst (run oci_step (fst (oci_step s (Tag d (RName n)))) h2)) (Resolve (RName n))) = ODesc d.
+Proof.
+  intros s Hok Hfr.
+  assert (Hnd0 : NoDup (map fst (r_index (o_res s)))) by (apply oci_run_index_nodup; constructor).
+  pose proof (oci_index_nodup s (Tag d (RName n)) Hnd0) as Hnd.
+  assert (Hget : get ref_eqb (RName n) (r_index (o_res (fst (oci_step s (Tag d (RName n)))))) = Some d).
+  { revert Hok. simpl. destruct (is_some _); [|discriminate]. intros _. cbn [fst o_res].
+    change (get ref_eqb (RName n) (r_index (oci_tag d (RName n) (o_res s))) = Some d).
+    rewrite r_index_oci_tag. unfold spec_oci_tag. apply (get_put_eq ref_eqb ref_eqb_spec). }
+  revert Hnd Hget. generalize (fst (oci_step s (Tag d (RName n)))). clear Hok Hnd0 s.
+  induction h2 as [|o h2 IH]; intros s Hnd Hget.
+  - simpl. rewrite Hget. reflexivity.
+  - simpl in Hfr. apply andb_true_iff in Hfr as [F1 F2]. rewrite run_cons. cbn [fst].
+    apply IH; auto.
+    + now apply oci_index_nodup.
+    + apply oci_name_frame; auto. now destruct (touches_name n (gk d) o).
+Qed.
+
+(* Delete removes the content and every reference to it *)
+Lemma oci_delete_clears h1 d :
+  let s := fst (run oci_step oci_init h1) in
+  snd (oci_step s (Delete d)) = OOk ->
+  let s' := fst (oci_step s (Delete d)) in
+  snd (oci_step s' (Fetch d)) = OErr ENotFound /\
+  snd (oci_step s' (Exists d)) = OBool false /\
+  forall n d', get ref_eqb (RName n) (r_index (o_res s)) = Some d' -> gk d' = gk d ->
+               snd (oci_step s' (Resolve (RName n))) = OErr ENotFound.
+Proof.
+  intros s Hok s'.
+  assert (Hnd : NoDup (map fst (r_index (o_res s)))) by (apply oci_run_index_nodup; constructor).
+  unfold s'. revert Hok. simpl. destruct (get N.eqb (d_dig d) (o_blobs s)) eqn:E; [|discriminate].
+  intros _. cbn [fst snd o_blobs o_res]. rewrite (get_del_eq N.eqb). repeat split; auto.
+  intros n d' Hg Hk. rewrite r_index_untag_equal.
+  rewrite (untag_fold_get_drop (gk d) _ _ (RName n) d'); auto.
+  - now apply (get_In ref_eqb ref_eqb_spec).
+  - rewrite Hk. apply (eqb_refl gkey_eqb gkey_eqb_spec).
+Qed.
